@@ -442,7 +442,8 @@ type MalCase struct {
 }
 
 var mutations = []string{"bareLF-header", "bareLF-bulk", "noCR", "shortLen", "longLen", "lenNotNumber", "lenEmpty", "lenNegative", "lenHuge",
-	"arrLenNotNumber", "arrLenNegative", "arrLenHuge", "truncate", "typeByte", "inlineGarbage", "nonCommandValues", "raw", "lonelyLF"}
+	"arrLenNotNumber", "arrLenNegative", "arrLenHuge", "truncate", "typeByte", "inlineGarbage", "nonCommandValues", "raw", "lonelyLF",
+	"embeddedShort", "embeddedShort", "embeddedLong"}
 
 func mutate(m string, param int, raw string, unit []byte) []byte {
 	// unit is "*3\r\n$3\r\nSET\r\n$<n>\r\n<key>\r\n$1\r\nx\r\n"
@@ -487,8 +488,38 @@ func mutate(m string, param int, raw string, unit []byte) []byte {
 		return []byte([]string{"+OK\r\n", ":1\r\n", "$-1\r\n", "*0\r\n", "*-1\r\n", "*1\r\n*1\r\n$1\r\nx\r\n", "-ERR x\r\n", "$3\r\nfoo\r\n"}[param%8])
 	case "lonelyLF":
 		return []byte("\n")
+	case "embeddedShort", "embeddedLong":
+		// a SET whose value is itself the wire form of another command, with the value's length
+		// mis-announced: a server that answers the protocol error and keeps parsing the same
+		// connection re-synchronises inside the value and executes the embedded command
+		key := unit[bytes.Index(unit, []byte("evil"))-len(tagOf(unit)):]
+		key = key[:bytes.IndexByte(key, '\r')]
+		inner := respx.EncodeCommand([][]byte{[]byte("SET"), append(append([]byte{}, key...), []byte("-pwned")...), []byte("1")})
+		val := append([]byte("x\r\n"), inner...)
+		announced := 1 + param%3 // shorter than the payload
+		if m == "embeddedLong" {
+			announced = len(val) - 2 - param%5 // cuts the payload just before its end
+			if announced < 1 {
+				announced = 1
+			}
+		}
+		var b bytes.Buffer
+		fmt.Fprintf(&b, "*3\r\n$3\r\nSET\r\n$%d\r\n%s\r\n$%d\r\n", len(key), key, announced)
+		b.Write(val)
+		b.WriteString("\r\n")
+		return b.Bytes()
 	}
 	return []byte(raw)
+}
+
+// tagOf returns the "m<seq>:<nonce>:" prefix of the key inside a SET unit.
+func tagOf(unit []byte) []byte {
+	i := bytes.Index(unit, []byte("evil"))
+	j := i
+	for j > 0 && unit[j-1] != '\n' {
+		j--
+	}
+	return unit[j:i]
 }
 
 func execMalformed(c MalCase) kit.Outcome {
